@@ -44,6 +44,7 @@ W8(n) == NatToBytes(n, 8)              \* small naturals only
 (*   [k |-> "a", v |-> <<W8,...>>]    int32 array (nil = empty)            *)
 (*   [k |-> "m", has |-> BOOLEAN, v |-> <<<<key bytes, value>>,...>>]      *)
 (*                                    map; has = the pointer is not nil    *)
+(*                                    (nil = empty as a value)             *)
 (***************************************************************************)
 LI(w8)  == [k |-> "i", v |-> w8]
 LN(n)   == LI(W8(n))
@@ -53,12 +54,12 @@ LA(xs)  == [k |-> "a", v |-> xs]
 LM(has, pairs) == [k |-> "m", has |-> has, v |-> pairs]
 
 \* compares the kinds first: TLC must never compare a BOOLEAN with a tuple
+\* (a nil map and an empty one are the same value: `has` only matters to the byte form)
 SameLeaf(a, b) == /\ a.k = b.k
-                  /\ IF a.k = "m" THEN a.has = b.has /\ SamePairs(a.v, b.v) ELSE a.v = b.v
+                  /\ IF a.k = "m" THEN SamePairs(a.v, b.v) ELSE a.v = b.v
 
 IsDefault(l) == CASE l.k = "i" -> l.v = Zeros(8)
                   [] l.k = "b" -> l.v = FALSE
-                  [] l.k = "m" -> ~l.has /\ l.v = <<>>
                   [] OTHER -> l.v = <<>>
 DefaultOf(l) == CASE l.k = "i" -> LI(Zeros(8))
                   [] l.k = "b" -> LB(FALSE)
@@ -121,7 +122,7 @@ Holds(name, c) ==
     [] name = "caller" -> IsInt(c) /\ ~IsZeroInt(c)              \* caller project code set
     [] name = "custom" -> c.k = "m" /\ c.v # <<>>                \* at least one custom field (at most 255)
     [] name = "v2"     -> IsInt(c) /\ c.v = W8(2)                \* version-2 HTTP-call details
-    [] name = "attrs"  -> c.k = "m" /\ c.has                     \* attributes given (possibly none in them)
+    [] name = "attrs"  -> c.k = "m" /\ c.v # <<>>                \* at least one attribute
     [] name = "param"    -> BitSet(c, 1)
     [] name = "resource" -> BitSet(c, 2)
     [] name = "stack"    -> BitSet(c, 4)
@@ -134,8 +135,6 @@ WARNING == 20
 Expect(kind, w, f) ==
   IF kind = "TxRecord" /\ f = "ErrorLevel" /\ IsZeroInt(w[f]) /\ "Error" \in DOMAIN w /\ IsInt(w.Error) /\ ~IsZeroInt(w.Error)
   THEN LN(WARNING)                                   \* an error without a level is a warning
-  ELSE IF kind = "TxRecord" /\ f = "Fields" /\ w[f].k = "m"
-  THEN LM(w[f].v # <<>>, w[f].v)                     \* no custom fields and an empty table are the same
   ELSE w[f]
 
 \* the fields of absent sections
@@ -146,10 +145,10 @@ AbsentFields(kind, w) ==
 \* the record a reader is expected to produce from w (over the fields of w)
 Normalize(kind, w) ==
   Bind(AbsentFields(kind, w), LAMBDA ab :
-    [f \in DOMAIN w |-> IF f \in ab /\ ~(kind = "TxRecord" /\ f = "Fields")
-                        THEN DefaultOf(w[f]) ELSE Expect(kind, w, f)])
+    [f \in DOMAIN w |-> IF f \in ab THEN DefaultOf(w[f]) ELSE Expect(kind, w, f)])
 
-FieldRestored(kind, w, r, f) == f \in DOMAIN r /\ SameLeaf(r[f], Expect(kind, w, f))
+\* a field the reader's record does not mention holds its default
+FieldRestored(kind, w, r, f) == IF f \in DOMAIN r THEN SameLeaf(r[f], Expect(kind, w, f)) ELSE IsDefault(Expect(kind, w, f))
 FieldDefault(r, f) == f \notin DOMAIN r \/ IsDefault(r[f])
 
 \* it: a written item [fam, kind, tag, w, carried, len]; r: the leaves of the object read
@@ -159,8 +158,7 @@ Restored(it, r) ==
      \A i \in DOMAIN secs :
         IF Present(secs[i], it.w)
         THEN \A f \in secs[i].fields \cap DOMAIN it.w : FieldRestored(it.kind, it.w, r, f)
-        ELSE \A f \in secs[i].fields \cap DOMAIN it.w :
-               IF it.kind = "TxRecord" /\ f = "Fields" THEN FieldRestored(it.kind, it.w, r, f) ELSE FieldDefault(r, f)
+        ELSE \A f \in secs[i].fields \cap DOMAIN it.w : FieldDefault(r, f)
 
 (***************************************************************************)
 (* Part 4: the reference format.                                           *)
